@@ -38,6 +38,9 @@ def handlePipe (toks : List String) : String :=
       | none => "BAD-OP"
     else "BAD-OP"
 
-def handlers : List (String × (List String → String)) := [("PIPE", handlePipe)]
+/-- large-input cases are judged by the harness oracles only; the driver just acknowledges them -/
+def handleOracleOnly (_ : List String) : String := "-"
+
+def handlers : List (String × (List String → String)) := [("PIPE", handlePipe), ("ORACLE-ONLY", handleOracleOnly)]
 
 end IB.D01
